@@ -96,6 +96,39 @@ fn check(acc: &mut Acc, reg: &Registry, s: &dyn Subject, case: &Case, flat: bool
         for f in fails {
             acc.violation(format!("C11/{}/{}", f.0, ctor(&reg.defs, s.ty())), f.0, witness(s, &case.payload, src, &Script::Continue, &r, json!({"what": f.1})));
         }
+        // under stop answers (by kind of decision): a conversion / validate failure is still handed over at the
+        // field's (container's) own position first, and only user functions the keep-going run calls are called
+        if src == Source::Ov && unique_keys(&case.payload) && r.reports().any(|x| matches!(x.kind, monitor::RKind::Foreign { .. })) {
+            let pred = refmodel::interp(&reg.defs, s.ty(), &case.payload);
+            let allowed = observed_calls(&r);
+            for pol in policies() {
+                let rp = run_case(s, &case.payload, src, pol.clone());
+                acc.eval();
+                acc.count("runs_under_answer_policies");
+                if matches!(rp.outcome, Outcome::Panic(_)) {
+                    continue;
+                }
+                if let Some(d) = handover_chain(&pred, &rp) {
+                    acc.violation(format!("C11/{}/{}", d.rule, ctor(&reg.defs, s.ty())), d.rule, witness(s, &case.payload, src, &pol, &rp, json!({"what": d.detail})));
+                }
+                let mut pool = allowed.clone();
+                for c in observed_calls(&rp) {
+                    match pool.iter().position(|x| *x == c) {
+                        Some(i) => {
+                            pool.swap_remove(i);
+                        }
+                        None => {
+                            acc.violation(
+                                format!("C11/user-function-called-only-under-stop-answers/{}", ctor(&reg.defs, s.ty())),
+                                "a user function ran (or ran twice) under stop answers although the keep-going run does not call it",
+                                witness(s, &case.payload, src, &pol, &rp, json!({"call": format!("{c:?}")})),
+                            );
+                            break;
+                        }
+                    }
+                }
+            }
+        }
         acc.sample(|| json!({"subject": s.name(), "payload": case.payload.show(), "outcome": r.outcome.show(), "trace": r.trace_lines(14)}));
     }
 }
